@@ -35,13 +35,13 @@ Definition arg_env (c : config) (s : sim) (o : opcode) (a : arg) : bool :=
       forallb graphic m && forallb graphic at_
       && negb (len_le m 0) && negb (len_le at_ 0)
   | PERSID, AB p =>
-      match p with
-      | 112 :: 105 :: 100 :: 95 :: d =>
+      match strip_prefix pid_prefix p with
+      | Some d =>
           match parse_N d with
           | Some n => (n <? 2 ^ 32) && list_eqb d (print_N n)
           | None => false
           end
-      | _ => false
+      | None => false
       end
   | PUT, AU n => n =? memo_len s
   | BINPUT, AU n => (n =? memo_len s) && (n <? 256)
@@ -185,3 +185,33 @@ Definition run_R (c : config) (framed : bool) (steps : list rstep) : Prop :=
   (framed = true -> v_ge4 (c_version c) = true)
   /\ target_ok c (N.of_nat (length steps)) = true
   /\ body_ok c {| stk := []; memo := []; proto_emitted := negb (v_lt2 (c_version c)) |} steps = true.
+
+(* ---------- well-formed tokens: everything that can occur in a run (body arguments in the
+   envelope of some state, TypeConfusion replacements, header, tail, STOP); the lexer round
+   trip (proofs/LexRT.v) is proved for these ---------- *)
+Definition arg_wf (o : opcode) (a : arg) : bool :=
+  match o, a with
+  | (INT | LONG | LONG1 | LONG4 | BININT), AZ z => i32_range z
+  | BININT1, AU n => n <? 256
+  | BININT2, AU n => n <? 65536
+  | FLOAT, AB txt => float_text_ok txt && forallb graphic txt
+  | BINFLOAT, AF bits => bits <? 2 ^ 64
+  | STRING, AB p => forallb printable p && len_le p 124
+  | UNICODE, AB p => forallb printable p && len_le p 124 && raw_unicode_ok (S (length p)) false p
+  | (SHORT_BINUNICODE | BINUNICODE | BINUNICODE8), AB p => forallb printable p && len_le p 124
+  | (BINSTRING | SHORT_BINSTRING | BINBYTES | SHORT_BINBYTES | BINBYTES8 | BYTEARRAY8), AB p =>
+      forallb is_byte p && len_le p 124
+  | (GLOBAL | INST), AP m at_ => forallb graphic m && forallb graphic at_
+  | PERSID, AB p => forallb graphic p
+  | (PUT | GET), AU n => true
+  | (BINPUT | BINGET), AU n => n <? 256
+  | (LONG_BINPUT | LONG_BINGET), AU n => n <? 2 ^ 32
+  | EXT1, AU n => (1 <=? n) && (n <? 256)
+  | EXT2, AU n => (1 <=? n) && (n <? 65536)
+  | EXT4, AZ z => ((1 <=? z) && (z <=? 2147483647))%Z
+  | PROTO, AU n => n <? 256
+  | FRAME, AU n => n <? 2 ^ 64
+  | _, A0 => match ref_reader o with no_arg => true | _ => false end
+  | _, _ => false
+  end.
+Definition tok_wf (t : token) : bool := arg_wf (fst t) (snd t).
